@@ -71,6 +71,11 @@ CHECKS['C13'] = ('fault_enumeration', 'exhaustive fault injection (cancel at eve
     'every completed transfer must end at the time a processor-sharing fluid model in rational arithmetic computes from the observed start and abort times (so an aborted transfer must free its bandwidth at once), and a probe transfer afterwards sees an idle pipe.',
     'Trusts the 80-line fluid model; tolerance 1e-9 relative; values from a small dyadic-friendly alphabet.',
     'DESIGN.md section 3 C13')
+CHECKS['C14'] = ('exploration', 'bounded exhaustive enumeration of interval()/delay() loops (periods x body-duration sequences x start times x placements) on the real kernel vs. an arithmetic tick model',
+    'Every loop over interval(p)/delay(p) for p in {0,1,2,0.5,-1}, every sequence of <= 3/4 body durations from {none,instant,1,2,3}, three start times, iterator created early or not, alone / next to a second ticker / inside until(delay) is executed; '
+    'tick times, yielded values, IntervalExceeded (exactly when a body run exceeded the period), ValueError for negative periods and the loop end must equal the arithmetic model, and every iteration step must suspend at least once (FIFO monitored) before the next body.',
+    'Trusts the 25-line tick model; grid origin = start of iteration.',
+    'DESIGN.md section 3 C14')
 PENDING = {}
 
 def main():
